@@ -320,22 +320,8 @@ func (fr *Frame) applyContract(ct *Contract, key string, sig *types.Signature, f
 			post.layer = nil
 			u.epochAlloc[post.epoch] = a
 			fr.preserveLocals(pre, post)
-			// "everything" includes the ghost state (epochs only move forward)
-			oldEpoch := post.ghost["epoch"]
-			for g, old := range post.ghost {
-				post.ghost[g] = u.fresh("g!"+g, old.Sort)
-				if g == "epoch" {
-					u.assume(True, Ge(post.ghost[g], old))
-				}
-			}
-			_ = oldEpoch
-			for _, gd := range u.cs.GhostVars {
-				if gd.Sort == "epoch" {
-					if gv, ok := post.ghost[gd.Name]; ok {
-						u.assume(True, Le(gv, post.ghost["epoch"]))
-					}
-				}
-			}
+			// ghost variables change only if listed explicitly as ghost(NAME) (checked for verified callees by the
+			// ghost frame obligation)
 		} else {
 			// new layer: untouched heaps agree on old objects
 			post.layer = &heapLayer{prevHeaps: pre.heaps, prevEpoch: pre.epoch, prevLayer: pre.layer, allocOld: pre.alloc, allocNew: a}
@@ -484,6 +470,13 @@ func (u *Unit) verifyRoot() {
 		if g.Sort == "epoch" {
 			// an epoch-valued ghost records a past epoch: never ahead of the current one
 			u.assume(True, Le(st.ghost[g.Name], st.ghost["epoch"]))
+		}
+	}
+	if ct := u.contract; ct != nil {
+		for pname, cb := range ct.Callbacks {
+			if cb.Stops {
+				st.ghost["stopped_"+pname] = False
+			}
 		}
 	}
 	fr.entry = st.clone()
